@@ -274,6 +274,29 @@ pub trait Children {
     fn c_nest(&self) -> &Self::NestChild;
 }
 
+/// Lifetime-parameterised trait whose receiver is borrowed for the trait's lifetime and whose
+/// wrapped associated type borrows from it (the shape of `examples/plugin-api`).
+#[cglue_trait]
+pub trait Lend<'a> {
+    #[wrap_with_obj(ReadOnly)]
+    type Lent: ReadOnly + 'a;
+    fn lend(&'a mut self, salt: u64) -> Self::Lent;
+}
+
+/// What `Lend::lend` hands out: a view that forwards to the borrowed child.
+pub struct LendView<'a> {
+    pub s: &'a mut Solo,
+}
+impl<'a> ReadOnly for LendView<'a> {
+    fn r_get(&self) -> u64 { self.s.r_get() }
+    fn r_touch(&self, v: u64) -> u64 { self.s.r_touch(v) }
+    fn r_str(&self) -> &str { self.s.r_str() }
+    fn r_slice(&self) -> &[u8] { self.s.r_slice() }
+    fn r_sum(&self, v: &[u64]) -> u64 { self.s.r_sum(v) }
+    fn r_opt(&self, v: Option<usize>) -> Option<u64> { self.s.r_opt(v) }
+    fn r_cb(&self, n: u32, cb: OpaqueCallback<u64>) -> u32 { self.s.r_cb(n, cb) }
+}
+
 /// Methods returning `Self`: the opaque object wraps the returned implementor into a new object
 /// of its own kind (with its own clone of the context).
 #[cglue_trait]
@@ -887,6 +910,15 @@ macro_rules! implementor {
             fn c_count(&self) -> u64 {
                 self.core.enter("c_count", 0, &[]);
                 self.core.get()
+            }
+        }
+
+        impl<'a> Lend<'a> for $name {
+            type Lent = LendView<'a>;
+            fn lend(&'a mut self, salt: u64) -> LendView<'a> {
+                self.core.enter("lend", salt, &[]);
+                self.core.mix(salt ^ 0x1E);
+                LendView { s: self.mu() }
             }
         }
 
